@@ -87,7 +87,7 @@ func (r *verifRepo) reopen(t *rapid.T, ctx context.Context) {
 }
 
 func (r *verifRepo) close() {
-	if r.dir != "" && r.ddb != nil {
+	if r.ddb != nil {
 		_ = r.ddb.Close()
 	}
 	if r.cleanup != nil {
